@@ -29,6 +29,13 @@ OPS = {
     "err_no_column": {"op": "select", "table": "t", "cols": ["nosuch"]},
     "err_no_index": {"op": "indexed_select", "table": "t", "index": "nosuch", "cols": ["id"]},
     "err_fault": {"op": "select", "table": "t", "cols": ["id"], "fail_at": 4},
+    "err_fault_header": {"op": "select", "table": "t", "cols": ["id"], "fail_at": 1},
+    "err_fault_master": {"op": "select", "table": "t", "cols": ["id"], "fail_at": 2},
+    "err_fault_short": {"op": "select", "table": "t", "cols": ["id"], "fail_at": 3, "fail_mode": "short"},
+    "err_fault_rowid": {"op": "select_rowid", "table": "t", "rowid": "7", "cols": ["b"], "fail_at": 3},
+    "err_fault_pk": {"op": "pk_select", "table": "w", "key": [["t", "6b3033"]], "cols": ["v"], "fail_at": 3},
+    "err_fault_eq": {"op": "indexed_select_eq", "table": "t", "index": "ta", "key": [["i", "3"]], "cols": ["id"], "fail_at": 4},
+    "err_fault_columns": {"op": "columns", "table": "t", "fail_at": 2},
     "err_fault_nested": {"op": "indexed_select", "table": "t", "index": "ta", "cols": ["id"], "fail_at": 7},
     "panic_cb": {"op": "select", "table": "t", "cols": ["id"], "panic_at": 2},
     "panic_cb_indexed": {"op": "indexed_select", "table": "t", "index": "ta", "cols": ["id"], "panic_at": 1},
@@ -129,6 +136,102 @@ def sched_two_handles(h, d, layout, rnd, n):
     return out
 
 
+NESTED = {
+    "select_rowid": {"op": "select_rowid", "table": "t", "rowid": "7", "cols": ["b"]},
+    "select": {"op": "select", "table": "meta", "cols": ["k"]},
+    "indexed_select": {"op": "indexed_select", "table": "t", "index": "ta", "cols": ["id"]},
+    "indexed_select_eq": {"op": "indexed_select_eq", "table": "t", "index": "ta", "key": [["i", "3"]], "cols": ["id"]},
+    "pk_select": {"op": "pk_select", "table": "w", "key": [["t", "6b3033"]], "cols": ["v"]},
+    "columns": {"op": "columns", "table": "t"},
+    "rlock": {"op": "rlock"},
+}
+
+
+def sched_nested(h, d, layout):
+    """the row callback calls another operation on the SAME handle.  The handle is locked, so the nested call is refused
+    ('trying to lock a locked lock'); it must leave the outer transaction's lock alone: the remaining rows are still
+    read under the SHARED lock and a writer still cannot commit"""
+    out = []
+    for i, (nname, nop) in enumerate(sorted(NESTED.items())):
+        outer = ["select", "indexed_select", "select_w"][i % 3]
+        r = lockrun.Runner(h, fresh(d, "nested-%s" % nname), layout)
+        try:
+            r.open("h1")
+            k = r.start("h1", dict(OPS[outer], nested_at=2, nested=nop))
+            ncb = 0
+            while k != "done" and ncb < 3:          # park at the callback AFTER the nested call
+                k = r.run_until("h1", {"C"})
+                ncb += 1
+            if k != "done":
+                r.sql("w1", "BEGIN IMMEDIATE")
+                r.sql("w1", "UPDATE meta SET v = v + 1")
+                c = r.sql("w1", "COMMIT", commits=True)
+                r.step("h1")
+                r.step("h1")
+            r.finish("h1")
+            if r.writer("w1").call(cmd="in_transaction").get("in_transaction"):
+                r.sql("w1", "COMMIT", commits=True)
+            r.start("h1", SEL_META)
+            r.finish("h1")
+            r.close("h1")
+        finally:
+            r.shutdown()
+        ne = ((r.results.get("h1") or {}).get("extra") or {})
+        out.append(("nested:%s:in:%s" % (nname, outer), r.events, {"nested": nname, "outer": outer}))
+    return out
+
+
+def sched_error_at_lock(h, d, layout):
+    """a long-lived handle whose next transaction fails right after the lock was taken: a hot journal appeared (the
+    writer was killed mid-transaction), or the header turned unsupported (another connection switched to WAL).  The error
+    exit must release the lock: SQLite can then recover / switch back, and the handle works again"""
+    out = []
+    for opn in ("select", "select_rowid", "indexed_select", "columns"):
+        r = lockrun.Runner(h, fresh(d, "hot-%s" % opn), layout)
+        errs = []
+        try:
+            r.open("h1")
+            r.start("h1", SEL_META)
+            r.finish("h1")
+            r.sql("w1", "PRAGMA cache_size=1")
+            r.sql("w1", "BEGIN")
+            r.sql("w1", "UPDATE t SET b = b || 'yyyyyyyyyyyyyyyyyyyyyyyyyyyyyyyyyyyyyyyyyyyyyyyyyyyyyyyyyyyyyyyyyyyyyyyy', a = a + 100")
+            r.kill("w1")
+            for _ in range(2):
+                r.start("h1", OPS[opn])
+                r.finish("h1")
+                errs.append(bool((r.results.get("h1") or {}).get("err")))
+            r.sql("w2", "SELECT count(*) FROM t")         # real SQLite rolls the hot journal back
+            r.start("h1", SEL_META)
+            r.finish("h1")
+            errs.append(bool((r.results.get("h1") or {}).get("err")))
+            r.close("h1")
+        finally:
+            r.shutdown()
+        out.append(("hotjournal:%s" % opn, r.events, {"op": opn, "variant": "hot journal under a long-lived handle", "errors": errs}))
+    for opn in ("select", "indexed_select"):
+        r = lockrun.Runner(h, fresh(d, "wal-%s" % opn), layout)
+        errs = []
+        try:
+            r.open("h1")
+            r.start("h1", SEL_META)
+            r.finish("h1")
+            r.sql("w1", "PRAGMA journal_mode=WAL")
+            for _ in range(2):
+                r.start("h1", OPS[opn])
+                r.finish("h1")
+                errs.append(bool((r.results.get("h1") or {}).get("err")))
+            r.sql("w1", "PRAGMA journal_mode=DELETE")
+            r.start("h1", SEL_META)
+            r.finish("h1")
+            errs.append(bool((r.results.get("h1") or {}).get("err")))
+            r.close("h1")
+        finally:
+            r.shutdown()
+        out.append(("walswitch:%s" % opn, r.events, {"op": opn, "variant": "header turned WAL under a long-lived handle", "errors": errs}))
+    return out
+
+
 def sched_growth(h, d, layout):
     """the file grows (another connection commits) after the handle was opened; a later scan reads pages beyond the
     size at open: the lock must be held at every one of those reads too"""
@@ -196,7 +299,12 @@ def run(tier):
     d = common.sub("c06")
     n = 12 if tier == "quick" else 60
     scheds = sched_exit_paths(h, d, "sep") + sched_writer_vs_parked_reader(h, d, "sep", rnd, n) + \
-        sched_two_handles(h, d, "sep", rnd, 5 if tier == "quick" else 20) + sched_growth(h, d, "sep")
+        sched_two_handles(h, d, "sep", rnd, 5 if tier == "quick" else 20) + sched_growth(h, d, "sep") + \
+        sched_nested(h, d, "sep") + sched_error_at_lock(h, d, "sep")
+    errs_seen = [m["errors"] for name, _, m in scheds if "errors" in m]
+    v.cov["error_at_lock_outcomes"] = errs_seen
+    if not any(e[0] for e in errs_seen):
+        raise Infra("no hot-journal / WAL-switch schedule made the operation fail: the error-exit schedules are vacuous")
     metas = {name: m for name, _, m in scheds}
     res = lockrun.validate(v, [(n_, e) for n_, e, _ in scheds], "sep", "c06")
     report(v, "C06", res, metas, "sep")
@@ -208,11 +316,18 @@ def run(tier):
     allres.update(res_s)
     v.cov["traces_validated_against_impl"] = len(allres)
     v.cov["evaluations"] = sum(len(e) for _, e, _ in scheds + same)
-    v.cov["schedules"] = {"exit_paths": len(OPS), "writer_vs_parked_reader": n, "two_handles_sep": len(scheds) - len(OPS) - n - 2, "growth": 2,
-                          "two_handles_same_process": len(same)}
+    fam = {}
+    for name, _, _ in scheds:
+        fam[name.split(":")[0]] = fam.get(name.split(":")[0], 0) + 1
+    fam["two_handles_same_process"] = len(same)
+    v.cov["schedules"] = fam
     v.cov["accepted"] = sum(1 for x in allres.values() if x["accepted"])
     for name, evs, m in scheds + same:
-        v.nontrivial((name.split(":")[0], m.get("op"), str(m.get("parked_at")), m.get("variant"), m.get("layout")))
+        v.nontrivial((name.split(":")[0], m.get("op"), str(m.get("parked_at")), m.get("variant"), m.get("layout"), m.get("nested"), m.get("outer")))
+    v.cov["rule_additions"] = ("(5) nested: the row callback calls each high level operation and RLock on the SAME handle (refused), a writer then "
+                               "tries to commit while the outer scan is parked at its next callback; (6) error right after the lock: a hot journal left "
+                               "by a killed writer / a header switched to WAL under a long-lived handle, twice, then SQLite recovers / switches back and "
+                               "the handle reads again; (7) read faults at the header, the schema, a short read, in every lookup kind")
     v.cov["rule"] = ("schedules on real processes: (1) every high level operation x exit path (normal, early stop, missing table/column/index, "
                      "injected read error incl. in the nested lookup, callback panic recovered by the caller); (2) reader parked after the lock / at a "
                      "page read / inside the callback while a real SQLite connection does BEGIN IMMEDIATE, UPDATE, COMMIT (BUSY expected), COMMIT "
